@@ -1,0 +1,211 @@
+//! Verification hooks for `unsync::Cache` (only with `--cfg mini_moka_verif`).
+//!
+//! Everything here is read-only except `verif_set_clock`, which installs a mock
+//! expiration clock exactly like the `cfg(test)` helper does.
+
+use super::Cache;
+use crate::{
+    common::{deque::DeqNode, CacheRegion},
+    verif::MockClock,
+};
+
+use std::{
+    borrow::Borrow,
+    collections::HashSet,
+    hash::{BuildHasher, Hash},
+    rc::Rc,
+};
+
+/// Names one of the internal queues.
+#[derive(Clone, Copy, Debug, PartialEq, Eq)]
+pub enum VerifDeque {
+    Window,
+    Probation,
+    Protected,
+    WriteOrder,
+}
+
+/// What the cache physically stores beside a key and a value.
+#[derive(Clone, Copy, Debug, PartialEq, Eq)]
+pub struct VerifEntryMeta {
+    pub policy_weight: u32,
+    pub has_access_order_node: bool,
+    pub has_write_order_node: bool,
+}
+
+impl<K, V, S> Cache<K, V, S>
+where
+    K: Hash + Eq,
+    S: BuildHasher + Clone,
+{
+    /// Installs a mock expiration clock and returns its handle.
+    pub fn verif_set_clock(&mut self) -> MockClock {
+        let (clock, handle) = MockClock::new_pair();
+        self.expiration_clock = Some(clock);
+        handle
+    }
+
+    /// Number of entries physically held by the hash map.
+    pub fn verif_map_len(&self) -> usize {
+        self.cache.len()
+    }
+
+    /// Visits every entry physically held by the hash map (expired or not).
+    pub fn verif_for_each_entry(&self, mut f: impl FnMut(&K, &V, VerifEntryMeta)) {
+        for (k, entry) in self.cache.iter() {
+            let meta = VerifEntryMeta {
+                policy_weight: entry.policy_weight(),
+                has_access_order_node: entry.access_order_q_node().is_some(),
+                has_write_order_node: entry.write_order_q_node().is_some(),
+            };
+            f(k, &entry.value, meta);
+        }
+    }
+
+    /// Visits the keys of one internal queue from its front (oldest) to its back.
+    /// Does nothing if the queue is structurally broken (see `verif_walk`).
+    pub fn verif_deque_keys(&self, which: VerifDeque, mut f: impl FnMut(&K)) {
+        match which {
+            VerifDeque::Window => {
+                if let Ok(nodes) = self.deques.window.verif_walk() {
+                    nodes
+                        .iter()
+                        .for_each(|n| f(unsafe { &n.as_ref().element.key }));
+                }
+            }
+            VerifDeque::Probation => {
+                if let Ok(nodes) = self.deques.probation.verif_walk() {
+                    nodes
+                        .iter()
+                        .for_each(|n| f(unsafe { &n.as_ref().element.key }));
+                }
+            }
+            VerifDeque::Protected => {
+                if let Ok(nodes) = self.deques.protected.verif_walk() {
+                    nodes
+                        .iter()
+                        .for_each(|n| f(unsafe { &n.as_ref().element.key }));
+                }
+            }
+            VerifDeque::WriteOrder => {
+                if let Ok(nodes) = self.deques.write_order.verif_walk() {
+                    nodes
+                        .iter()
+                        .for_each(|n| f(unsafe { &n.as_ref().element.key }));
+                }
+            }
+        }
+    }
+
+    pub fn verif_sketch_enabled(&self) -> bool {
+        self.frequency_sketch_enabled
+    }
+
+    pub fn verif_sketch_resets(&self) -> u32 {
+        self.frequency_sketch.verif_resets()
+    }
+
+    /// The popularity estimate the cache would use for `key` right now.
+    pub fn verif_frequency<Q>(&self, key: &Q) -> u8
+    where
+        Rc<K>: Borrow<Q>,
+        Q: Hash + Eq + ?Sized,
+    {
+        self.frequency_sketch.frequency(self.hash(key))
+    }
+
+    /// Structural validity of the map/queue pair. Pointers stored in entries are
+    /// only compared against the set of nodes reachable from the queues; they are
+    /// never dereferenced unless they are members of that set.
+    pub fn verif_walk(&self) -> Result<(), String> {
+        let window = self.deques.window.verif_walk()?;
+        let probation = self.deques.probation.verif_walk()?;
+        let protected = self.deques.protected.verif_walk()?;
+        let write_order = self.deques.write_order.verif_walk()?;
+
+        let addr = |n: &std::ptr::NonNull<DeqNode<_>>| n.as_ptr() as usize;
+        let ao_sets: [HashSet<usize>; 3] = [
+            window.iter().map(addr).collect(),
+            probation.iter().map(addr).collect(),
+            protected.iter().map(addr).collect(),
+        ];
+        let wo_set: HashSet<usize> = write_order.iter().map(|n| n.as_ptr() as usize).collect();
+
+        let mut ao_seen: HashSet<usize> = HashSet::new();
+        let mut wo_seen: HashSet<usize> = HashSet::new();
+
+        for (k, entry) in self.cache.iter() {
+            match entry.access_order_q_node() {
+                None => return Err("map entry without an access-order node".to_string()),
+                Some(tagged) => {
+                    let (node, tag) = tagged.decompose();
+                    let region = CacheRegion::from(tag);
+                    let idx = match region {
+                        CacheRegion::Window => 0,
+                        CacheRegion::MainProbation => 1,
+                        CacheRegion::MainProtected => 2,
+                        CacheRegion::Other => {
+                            return Err("access-order node tagged with region Other".to_string())
+                        }
+                    };
+                    let a = node.as_ptr() as usize;
+                    if !ao_sets[idx].contains(&a) {
+                        return Err(format!(
+                            "entry's access-order node is not a member of its {:?} queue (dangling)",
+                            region
+                        ));
+                    }
+                    if !ao_seen.insert(a) {
+                        return Err("two map entries share one access-order node".to_string());
+                    }
+                    let node_key = unsafe { &node.as_ref().element.key };
+                    if !Rc::ptr_eq(node_key, k) && **node_key != **k {
+                        return Err("access-order node holds a different key".to_string());
+                    }
+                }
+            }
+            match entry.write_order_q_node() {
+                None => {
+                    if self.time_to_live.is_some() {
+                        return Err(
+                            "map entry without a write-order node although ttl is set".to_string()
+                        );
+                    }
+                }
+                Some(node) => {
+                    let a = node.as_ptr() as usize;
+                    if !wo_set.contains(&a) {
+                        return Err(
+                            "entry's write-order node is not a member of the write-order queue (dangling)"
+                                .to_string(),
+                        );
+                    }
+                    if !wo_seen.insert(a) {
+                        return Err("two map entries share one write-order node".to_string());
+                    }
+                    let node_key = unsafe { &node.as_ref().element.key };
+                    if !Rc::ptr_eq(node_key, k) && **node_key != **k {
+                        return Err("write-order node holds a different key".to_string());
+                    }
+                }
+            }
+        }
+
+        let ao_total = window.len() + probation.len() + protected.len();
+        if ao_total != ao_seen.len() {
+            return Err(format!(
+                "{} access-order nodes but {} map entries point to one",
+                ao_total,
+                ao_seen.len()
+            ));
+        }
+        if write_order.len() != wo_seen.len() {
+            return Err(format!(
+                "{} write-order nodes but {} map entries point to one",
+                write_order.len(),
+                wo_seen.len()
+            ));
+        }
+        Ok(())
+    }
+}
